@@ -653,6 +653,7 @@ def run(tier):
     _l.tail_copy_from_running_pointer(chk, ('src/symcipher/', 'src/hash/'))
     _l.limb_split_consistent(chk, ['src/symcipher/'])
     _l.word_codec_maps(chk, ['src/symcipher/', 'src/hash/ghash'], floor=10)
+    _l.word_split_conserves_bits(chk, ['src/symcipher/', 'src/hash/'], floor=1)
     from .. import siblings as _sib
     _sib.check_group(chk, 'aes_big/aes_small', floor=8)
     return chk.finish()
